@@ -29,7 +29,7 @@ CHECKS = {
                 "(this found the pinned defect at prng.c:161, repaired by the fix: commit). (2) Finite-class abstract execution (D-FIN): the callback's return size is partitioned by the "
                 "constants it is compared with; init_user/reseed return 1 exactly for the class {32}; the request is for 32 bytes into a 32-byte field. (3) Under callback == NULL the first "
                 "request resolves (field values tracked along the path) to the function plain init passes. (4) Must-pass rules: on every path after the request, whatever it returned, V and C "
-                "are re-derived by hashes that absorbed the callback's buffer, counters are set, the stored callback is never NULL. One entropy request per path in init_user and reseed (two requests on one path: the status and the bytes mixed in are not those of one delivery).",
+                "are re-derived by hashes that absorbed the callback's buffer, counters are set, the stored callback is never NULL; with a caller-supplied callback its user data is stored on every path (no return reachable, null edges pruned, that avoids the store), and reseed makes its request through the stored callback with the stored user data. One entropy request per path in init_user and reseed (two requests on one path: the status and the bytes mixed in are not those of one delivery).",
         "note": "Decides the control/data-flow shape that makes the statement true for every delivery pattern; does not compute hash values. Entropy quality is outside the property.",
         "technique": "null-check contradiction rule + finite-class abstract execution over the CFG + must-pass-through dominance rules",
     },
@@ -174,8 +174,8 @@ CHECKS = {
         "technique": "finite-class (key length) symbolic path summaries with uninterpreted hash events",
     },
     "C13": {
-        "text": "RFC 5869 structure: one-shot = the two outlen classes w.r.t. 8160 (above: -1, no call, no write; else extract, expand, wipe, 0); extract = HMAC(salt, IKM) with counter 1 and nothing "
-                "buffered; expand analysed for each of the 33 buffer positions, each short-request length, and one generic loop iteration per counter class {0, 1, other}: T(n) = HMAC(PRK, T(n-1) | "
+        "text": "RFC 5869 structure: one-shot = the two outlen classes w.r.t. 8160 (above: -1, no call, no write; else extract, expand, wipe, 0); extract = HMAC(salt, IKM) with counter 1 and nothing " "buffered on every path it distinguishes (on a path where a pointer is null or its length is 0 any pointer may be handed on with that length; a substitute of another length is not decided); "
+                "expand analysed for each of the 33 buffer positions, each short-request length, and one generic loop iteration per counter class {0, 1, other}: T(n) = HMAC(PRK, T(n-1) | "
                 "info | n) with the counter byte absorbed before its 8-bit increment, refusal with a zero-filled remainder when the counter is 0, left-over bytes served first, min(32, remaining) bytes "
                 "handed out per block, cursor/remaining in lock-step. HMAC calls are uninterpreted events with fresh output symbols; buffer contents tracked byte for byte. The 255-block limit is a "
                 "semantic rule: no block is generated with the 8-bit counter at 0 - by a check at the top of every iteration or because counter != 0 is an inductive invariant of the loop. "
